@@ -443,7 +443,7 @@ fn drive<W: Write>(
                 boundary = Some(pos);
                 // the service may speak first: the client sends nothing before the greeting is there
                 let greet = greeting_len(frames);
-                if greet > 0 && !coll.wait(Duration::from_millis(1500), |b| b.len() >= pos + greet) {
+                if greet > 0 && !coll.wait(STEP_WAIT, |b| b.len() >= pos + greet) {
                     timed_out = !coll.is_eof();
                 }
                 if let (Some(chunks), false) = (payload, timed_out) {
@@ -503,7 +503,7 @@ fn drive<W: Write>(
                 }
                 boundary = Some(pos);
                 let greet = greeting_len(frames);
-                if greet > 0 && !coll.wait(Duration::from_millis(1500), |b| b.len() >= pos + greet) {
+                if greet > 0 && !coll.wait(STEP_WAIT, |b| b.len() >= pos + greet) {
                     timed_out = !coll.is_eof();
                 }
                 if let (Some(chunks), false) = (payload, timed_out) {
